@@ -75,11 +75,14 @@ EXEMPT = {
 
 
 def run(ctx):
-    from ..rules import scopeapi, crash2, sC43
+    from ..rules import scopeapi, crash2, sC43, dD6
     return [crash.rule_L1(ctx), crash.rule_L2(ctx), crash.rule_L3(ctx), crash.rule_L4(ctx), crash.rule_L5(ctx), crash.rule_L7(ctx),
             iface.rule_I1(ctx), iface.rule_I2(ctx), tree.rule_V1_visit(ctx), tree.rule_V2(ctx), handlers.rule_arg_guards(ctx),
             gen2.rule_G2(ctx), gen.rule_G4(ctx), C09.rule_leading_zero(ctx), scopeapi.rule_L8(ctx), crash2.rule_L9(ctx), crash2.rule_L10(ctx),
             sC43.rule_COUPLE(ctx), sC43.rule_EXCSHAPE(ctx), sC43.rule_LEXCASE(ctx), sC43.rule_CPREFIX(ctx),
             sC43.rule_LEXSUFFIX(ctx), sC43.rule_OCTDIGIT(ctx), sC43.rule_PAIR(ctx), sC43.rule_HOLD(ctx),
             sC43.rule_NONEORD(ctx),     # found PyrexScanner.close_bracket_action comparing a None nesting level (repaired: 921d6e3cf)
+            dD6.rule_DEFERRED(ctx),     # found PostParse.visit_ErrorNode returning None / match handlers validating before visiting (repaired: efc8b7b65)
+            # dD6.rule_TOKERR (tokenizer errors discarded by tentatively_scan: `with ('abc<newline>): pass` compiles silently) is NOT registered: accepting an invalid
+            # text without a message is outside the property as stated (it demands no crash, and acceptance of what CPython accepts); see SIDE_FINDINGS.md
             ]
